@@ -929,3 +929,34 @@ silent('C20', 'edge-delay-check-as-raise',
 silent('C20', 'sink-edge-asserts-respelled',
        lambda p: M.replace_node(p, N_SNK, 'Sink.behaviour', lambda n: isinstance(n, ast.Assert) and 'in_edges' in ast.unparse(n.test),
                                 lambda s: 'if not self.in_edges:\n    raise ValueError("sink needs an in_edge")'))
+
+# ---- C19.R6: state that outlives an instance (seed C19-c)
+_SRC_STATS_OLD = 'self.stats = {'
+def _source_stats_from_class_level(copy_expr):
+    def build(p):
+        s = p.modules[N_SRC].src
+        tree = ast.parse(s)
+        init = [f for c in tree.body if isinstance(c, ast.ClassDef) and c.name == 'Source' for f in c.body if isinstance(f, ast.FunctionDef) and f.name == '__init__'][0]
+        asg = [n for n in ast.walk(init) if isinstance(n, ast.Assign) and ast.unparse(n.targets[0]) == 'self.stats'][0]
+        lit = ast.unparse(asg.value)
+        lines = s.split('\n')
+        lines[asg.lineno - 1:asg.end_lineno] = [f'        self.stats = {copy_expr}']
+        lines[init.lineno - 1:init.lineno - 1] = [f'    _INITIAL_STATS = {lit}', '']
+        return {N_SRC: '\n'.join(lines)}
+    return build
+fire('C19', 'source-stats-shallow-copy-of-class-level-dict (seed C19-c)', 'C19.R6', 'shared(_INITIAL_STATS)',
+     _source_stats_from_class_level('dict(self._INITIAL_STATS)'))
+fire('C19', 'source-stats-alias-of-class-level-dict', 'C19.R6', 'shared(_INITIAL_STATS)',
+     _source_stats_from_class_level('Source._INITIAL_STATS'))
+silent('C19', 'source-stats-deepcopy-of-class-level-dict',
+       lambda p: {N_SRC: 'import copy\n' + _source_stats_from_class_level('copy.deepcopy(self._INITIAL_STATS)')(p)[N_SRC]})
+fire('C19', 'flow-items-numbered-by-module-counter', 'C19.R6', 'mutates-shared(_serial)',
+     lambda p: {'helper/baseflowitem.py': 'import itertools\n_serial = itertools.count()\n' + p.modules['helper/baseflowitem.py'].src.replace(
+         '        self.payload = None', '        self.payload = None\n        self.serial = next(_serial)', 1)})
+fire('C19', 'flow-items-counted-on-the-class', 'C19.R6', 'class-attribute-write(created)',
+     lambda p: {'helper/baseflowitem.py': p.modules['helper/baseflowitem.py'].src.replace(
+         '    def __init__(self, id):', '    created = 0\n    def __init__(self, id):', 1).replace(
+         '        self.payload = None', '        self.payload = None\n        BaseFlowItem.created += 1', 1)})
+silent('C19', 'module-level-read-only-table',
+       lambda p: {N_SRC: p.modules[N_SRC].src.replace('class Source(Node):', '_STATE_NAMES = ["SETUP_STATE", "GENERATING_STATE", "BLOCKED_STATE"]\n\nclass Source(Node):', 1).replace(
+           'if inter_arrival_time == 0 and not self.blocking:', 'if self.state not in _STATE_NAMES:\n            raise ValueError("bad state")\n        if inter_arrival_time == 0 and not self.blocking:', 1)})
